@@ -32,7 +32,15 @@ func ZZ_C01_D2() {
 		zzverif.Assert(zzverif.SameBytes(ha, hb), "D2 empty block: same application hash")
 	}
 	m3, m4 := zzNondetMenuTx("tx3"), zzNondetMenuTx("tx4")
+	// wall clocks: replica A executes block 3 at an arbitrary instant t0, replica B at the
+	// same instant or 4 s later; the first transaction's client-chosen time lies 2 s
+	// before t0, between the two executions, or after both
+	t0 := zzverif.ClockStart()
+	lagB := int64(4 * zzverif.Choose("clock.lagB", 2))
+	m3.time = (t0 + []int64{-2, 2, 6}[zzverif.Choose("tx3.time.offset", 3)]) * 1000000000
+	zzverif.SetClock(t0)
 	oa = a.menuBlock2(m3, m4, true)
+	zzverif.SetClock(t0 + lagB)
 	onB(func() { ob = b.menuBlock2(m3, m4, true) })
 	zzSameOut(oa, ob, "D2 block 3")
 	oa = a.menuBlock(nil, false)
